@@ -410,3 +410,109 @@ def unclamp(node):
 
     new = T().visit(fresh(node))
     return new, found
+
+
+# --------------------------------------------------------------------------- value ranges of a clamped local
+def value_range(fn, name, before=None):
+    """(lo, hi) that the local `name` is confined to when control reaches the statement containing `before` (or the end of
+    the function): the last plain assignment fixes the range of its expression - min()/max() against constants, division or
+    multiplication by a positive constant - and later top-level `if name > c: name = c` / `if name < c: name = c` pairs narrow
+    it.  Unknown = (-inf, inf).  Only straight-line top-level statements are followed; an assignment anywhere else resets."""
+    inf = float("inf")
+
+    def num(n):
+        if isinstance(n, ast.Constant) and isinstance(n.value, (int, float)) and not isinstance(n.value, bool):
+            return float(n.value)
+        if isinstance(n, ast.UnaryOp) and isinstance(n.op, ast.USub) and isinstance(n.operand, ast.Constant) and isinstance(n.operand.value, (int, float)):
+            return -float(n.operand.value)
+        return None
+
+    def rng(e, env):
+        c = num(e)
+        if c is not None:
+            return (c, c)
+        if isinstance(e, ast.Name) and e.id in env:
+            return env[e.id]
+        if isinstance(e, ast.Call) and isinstance(e.func, ast.Name) and e.func.id in ("min", "max") and len(e.args) >= 2 and not e.keywords:
+            rs = [rng(a, env) for a in e.args]
+            if e.func.id == "min":
+                return (min(r[0] for r in rs), min(r[1] for r in rs))
+            return (max(r[0] for r in rs), max(r[1] for r in rs))
+        if isinstance(e, ast.BinOp) and isinstance(e.op, (ast.Div, ast.Mult)):
+            k = num(e.right)
+            if k is not None and k > 0:
+                lo, hi = rng(e.left, env)
+                return (lo / k, hi / k) if isinstance(e.op, ast.Div) else (lo * k, hi * k)
+            k = num(e.left)
+            if k is not None and k > 0 and isinstance(e.op, ast.Mult):
+                lo, hi = rng(e.right, env)
+                return (lo * k, hi * k)
+        if isinstance(e, ast.Call) and isinstance(e.func, ast.Name) and e.func.id == "float" and len(e.args) == 1:
+            return rng(e.args[0], env) if isinstance(e.args[0], ast.Name) and e.args[0].id in env else (-inf, inf)
+        if isinstance(e, ast.IfExp):
+            a, b = rng(e.body, env), rng(e.orelse, env)
+            return (min(a[0], b[0]), max(a[1], b[1]))
+        return (-inf, inf)
+
+    env = {}
+    stop_line = getattr(before, "lineno", None)
+
+    def clamp_if(s):
+        """if v > c: v = c'  ->  ('hi', c, c') ; chained elif handled by the caller"""
+        t = s.test
+        if not (isinstance(t, ast.Compare) and len(t.ops) == 1 and len(s.body) == 1 and isinstance(s.body[0], ast.Assign) and len(s.body[0].targets) == 1):
+            return None
+        tgt = s.body[0].targets[0]
+        l, r = t.left, t.comparators[0]
+        op = t.ops[0]
+        if isinstance(r, ast.Name) and num(l) is not None:
+            l, r = r, l
+            op = {ast.Lt: ast.Gt, ast.LtE: ast.GtE, ast.Gt: ast.Lt, ast.GtE: ast.LtE}.get(type(op), type(None))()
+        if not (isinstance(l, ast.Name) and isinstance(tgt, ast.Name) and tgt.id == l.id and num(r) is not None and num(s.body[0].value) is not None):
+            return None
+        if num(s.body[0].value) != num(r):
+            return None
+        if isinstance(op, (ast.Gt, ast.GtE)):
+            return (l.id, "hi", num(r))
+        if isinstance(op, (ast.Lt, ast.LtE)):
+            return (l.id, "lo", num(r))
+        return None
+
+    def visit(stmts):
+        for s in stmts:
+            if stop_line is not None and s.lineno >= stop_line and not (s.lineno <= stop_line <= getattr(s, "end_lineno", s.lineno) and isinstance(s, (ast.If, ast.For, ast.While, ast.Try, ast.With))):
+                return False
+            if isinstance(s, ast.Assign) and len(s.targets) == 1 and isinstance(s.targets[0], ast.Name):
+                env[s.targets[0].id] = rng(s.value, env)
+                continue
+            if isinstance(s, ast.If):
+                cur = s
+                handled = True
+                found = []
+                while True:
+                    c = clamp_if(cur)
+                    if c is None:
+                        handled = False
+                        break
+                    found.append(c)
+                    if len(cur.orelse) == 1 and isinstance(cur.orelse[0], ast.If):
+                        cur = cur.orelse[0]
+                        continue
+                    if cur.orelse:
+                        handled = False
+                    break
+                if handled:
+                    for v, side, c in found:
+                        lo, hi = env.get(v, (-inf, inf))
+                        env[v] = (max(lo, c), hi) if side == "lo" else (lo, min(hi, c))
+                    continue
+            # anything else: names stored inside lose their range
+            for n in ast.walk(s):
+                if isinstance(n, ast.Name) and isinstance(n.ctx, ast.Store):
+                    env.pop(n.id, None)
+            if stop_line is not None and s.lineno <= stop_line <= getattr(s, "end_lineno", s.lineno):
+                return False
+        return True
+
+    visit(fn.body)
+    return env.get(name, (-inf, inf))
